@@ -12,7 +12,7 @@ def check(pid, tier, replay):
         out = vlib.tlc("endpoint/CreditWake", cfg="endpoint/CreditWake_lost.cfg", wd=vlib.workdir("ep-C08-neg"), workers=2, timeout=600)
         if vlib.tlc_violation(out) != "C08_Wakes":
             raise vlib.ToolError("CreditWake.tla no longer refutes the check-then-create order (vacuous race model)")
-    endpoint.run(pid, tier, replay, ("C08_",), models, gens,
+    endpoint.run(pid, tier, replay, ("C08_",), models, gens + endpoint.mix_gens(pid, tier),
                  "after a fixed handshake every sequence up to the depth bound over {send 1 frame, send 3 frames, grant 0/1/2 exact, grant lagging, grant with unset "
                  "delivery-count, drain 1/2, echo}, delivery-counts starting at 1000 and just below 2^32, closed by a generous grant; plus the same with the sending task "
-                 "parked at the schedule point credit.after_failed_check while the first grant is applied; the depth-3 scripts also against a sender link accepted by a listener and with a peer max-message-size of 200 (the 3-frame send becomes six link-level transfers for one credit); distinct = distinct scripts")
+                 "parked at the schedule point credit.after_failed_check while the first grant is applied; the depth-3 scripts also against a sender link accepted by a listener and with a peer max-message-size of 200 (the 3-frame send becomes six link-level transfers for one credit); distinct = distinct scripts" + endpoint.MIX_RULE)
